@@ -110,6 +110,15 @@ Section PairMin.
   Qed.
 End PairMin.
 
+(* top-level restatement (section variables made explicit) *)
+Lemma pair_min_correct (m : metric (T:=R)) (a1 a2 : satom (T:=R)) (ops : list (sop (T:=R))) :
+  match pair_min ROps m ops a1 a2 with
+  | Some (d, n) => exists s, nth_error ops n = Some s /\ qualifies m a1 a2 n s /\ d = biased n (dk_of m a1 a2 s) /\
+                             forall n' s', nth_error ops n' = Some s' -> qualifies m a1 a2 n' s' -> d <= biased n' (dk_of m a1 a2 s')
+  | None => forall n' s', nth_error ops n' = Some s' -> ~ qualifies m a1 a2 n' s'
+  end.
+Proof. exact (pair_min_spec m a1 a2 ops). Qed.
+
 (* ---------- (c) the bond rule ---------- *)
 Lemma bond_rule (a1 a2 : satom (T:=R)) (d : R) : 0 < d ->
   (ltb ROps d (bond_limit ROps a1 a2) = true <->
@@ -224,4 +233,60 @@ Proof.
   assert (S0 : forall z : Z, 0 <= IZR z * IZR z) by (intros; nra).
   pose proof (S0 a) as Pa. pose proof (S0 b) as Pb. pose proof (S0 c) as Pc.
   destruct Hn as [Hz | [Hz | Hz]]; pose proof (Sq _ Hz) as Q1; nra.
+Qed.
+
+(* the model's length formula, with the metric constants the SDM constructor computes from the cell,
+   is the kernel traced from SDM.vector_length in /repo's current source *)
+From SX Require Import Gen.K_cell.
+Definition metric_of_cell (a b c al be ga : R) : metric (T:=R) :=
+  {| m_asq := a * a; m_bsq := b * b; m_csq := c * c;
+     m_aga := a * b * cos (ga * PI / 180); m_bbe := a * c * cos (be * PI / 180); m_cal := b * c * cos (al * PI / 180) |}.
+Lemma vlen_matches_traced x y z a b c al be ga :
+  vlen ROps (metric_of_cell a b c al be ga) x y z = k_vector_length ROps x y z a b c al be ga.
+Proof.
+  unfold vlen, metric_of_cell, cst. cbn [m_asq m_bsq m_csq m_aga m_bbe m_cal]. kunfold. f_equal; ring.
+Qed.
+
+(* ---------- minimum image from the interplanar spacings ---------- *)
+Lemma wrap1_of_small (v : R) (k : Z) : - (1 / 2) <= v < 1 / 2 -> wrap1 ROps (v + IZR k) = (IZR k, v).
+Proof.
+  intros [L U]. unfold wrap1. runfold. unfold Rfloor.
+  assert (E : Int_part (v + IZR k + 1 / 2) = k).
+  { unfold Int_part. rewrite <- (tech_up (v + IZR k + 1 / 2) (k + 1)); [lia | rewrite plus_IZR; lra | rewrite plus_IZR; lra]. }
+  rewrite E. f_equal. lra.
+Qed.
+
+Lemma abs_dot_le a b : Rabs (dot a b) <= norm a * norm b.
+Proof.
+  unfold norm. rewrite <- sqrt_mult by apply dot_nonneg.
+  rewrite <- (sqrt_Rsqr_abs (dot a b)). apply sqrt_le_1_alt. unfold Rsqr. apply cauchy_schwarz.
+Qed.
+
+(* a fractional component is bounded by the length times the reciprocal axis length (row norm of the inverse) *)
+Lemma component_bound (M Minv : mat) (v : vec) : mv Minv (mv M v) = v ->
+  Rabs (vx v) <= norm (mrow1 Minv) * cell_norm M v /\
+  Rabs (vy v) <= norm (mrow2 Minv) * cell_norm M v /\
+  Rabs (vz v) <= norm (mrow3 Minv) * cell_norm M v.
+Proof.
+  intros E. unfold cell_norm.
+  assert (X : vx v = dot (mrow1 Minv) (mv M v)) by (rewrite <- E at 1; reflexivity).
+  assert (Y : vy v = dot (mrow2 Minv) (mv M v)) by (rewrite <- E at 1; reflexivity).
+  assert (Z : vz v = dot (mrow3 Minv) (mv M v)) by (rewrite <- E at 1; reflexivity).
+  rewrite X, Y, Z at 1. repeat split; apply abs_dot_le.
+Qed.
+
+(* if a lattice translate v of the difference vector is shorter than half of every interplanar spacing
+   (1 / reciprocal axis length), the component-wise wrap of ANY of its translates returns exactly v:
+   the distance the SDM computes for this operator is the true shortest one *)
+Theorem min_image_spacing (M Minv : mat) (v : vec) (kx ky kz : Z) :
+  mv Minv (mv M v) = v ->
+  norm (mrow1 Minv) * cell_norm M v < 1 / 2 -> norm (mrow2 Minv) * cell_norm M v < 1 / 2 ->
+  norm (mrow3 Minv) * cell_norm M v < 1 / 2 ->
+  snd (wrap1 ROps (vx v + IZR kx)) = vx v /\ snd (wrap1 ROps (vy v + IZR ky)) = vy v /\ snd (wrap1 ROps (vz v + IZR kz)) = vz v.
+Proof.
+  intros E Hx Hy Hz. destruct (component_bound M Minv v E) as (Bx & By & Bz).
+  assert (Ax : - (1 / 2) <= vx v < 1 / 2) by (pose proof (Rabs_def2 (vx v) (1/2) ltac:(lra)); lra).
+  assert (Ay : - (1 / 2) <= vy v < 1 / 2) by (pose proof (Rabs_def2 (vy v) (1/2) ltac:(lra)); lra).
+  assert (Az : - (1 / 2) <= vz v < 1 / 2) by (pose proof (Rabs_def2 (vz v) (1/2) ltac:(lra)); lra).
+  rewrite (wrap1_of_small _ kx Ax), (wrap1_of_small _ ky Ay), (wrap1_of_small _ kz Az). repeat split.
 Qed.
